@@ -892,7 +892,8 @@ class MatchTempoIndication(MatchParameter):
         is_list: bool = False,
     ):
         super().__init__()
-        self.value = self.from_string(value)[0]
+        content = self.from_string(value)
+        self.value = content[0] if len(content) > 0 else ""
         self.is_list = is_list
 
     def __str__(self):
@@ -905,7 +906,7 @@ class MatchTempoIndication(MatchParameter):
 
 
 def interpret_as_tempo_indication(value: str) -> MatchTempoIndication:
-    tempo_indication = MatchTempoIndication.from_string(value)
+    tempo_indication = MatchTempoIndication(value)
     return tempo_indication
 
 
